@@ -104,6 +104,19 @@ def observe (ops : List Op) (n : Name) : Option (List Conn × List Conn × List 
       | .ok (s1, evs) => go s1 evs rest
   go State.init [] ops
 
+/-- What the router finds for destination `d` after a history, and whether that connection is
+connected (`none` if Python raised). -/
+def lookupAfter (ops : List Op) (d : Dest) : Option (Option Conn × Bool) :=
+  let rec go (s : State) : List Op → Option (Option Conn × Bool)
+    | [] => some (routerLookup s d, match routerLookup s d with
+                                    | some o => s.connected o
+                                    | none => false)
+    | op :: rest =>
+      match step s op with
+      | .error _ => none
+      | .ok (s1, _) => go s1 rest
+  go State.init ops
+
 end Txdbus.Bus.Pre
 
 namespace Txdbus.Bus
@@ -117,5 +130,17 @@ def observe (ops : List Op) (n : Name) : Option (List Conn × List Conn × List 
       | .error _ => none
       | .ok (s1, evs) => go s1 evs rest
   go State.init [] ops
+
+/-- The same on the repaired model. -/
+def lookupAfter (ops : List Op) (d : Dest) : Option (Option Conn × Bool) :=
+  let rec go (s : State) : List Op → Option (Option Conn × Bool)
+    | [] => some (routerLookup s d, match routerLookup s d with
+                                    | some o => s.connected o
+                                    | none => false)
+    | op :: rest =>
+      match step s op with
+      | .error _ => none
+      | .ok (s1, _) => go s1 rest
+  go State.init ops
 
 end Txdbus.Bus
